@@ -1,3 +1,2 @@
 import PieModel.Props.C13
-open PieModel
-#print axioms C13_placeholder
+#print axioms PieModel.C13_placeholder
